@@ -10,7 +10,8 @@ CORR_TARGETS = ["theories/C18/Corr.vo"]
 TARGETS = ["theories/Properties/C18.vo"]
 PROPERTIES_FILE = "theories/Properties/C18.v"
 IMPL = "harness.props.c18_impl"
-SHARD = 150
+SHARD = 400
+EXTRA_REQUIRE = "From Coq Require Import Uint63."
 NWORKERS = 3
 RULE = ("histories of add/remove/remove-all/prefer/derive/underive/call on one multimethod with a "
         "private hierarchy over 5 namespaced keywords, :default and 3 classes (B subclasses A): "
@@ -159,10 +160,10 @@ def _cases(tier, rng):
         for salt in (0, 1, 2):
             yield mk(hist, every=(i + salt) % 3 != 0, salt=salt)
     # structured random
-    for i in range(1300 if quick else 20000):
+    for i in range(900 if quick else 20000):
         n = rng.randint(3, 5 if quick else 7)
         yield mk([rand_op(rng) for _ in range(n)], every=rng.random() < 0.67, salt=rng.randint(0, 5))
-    for i in range(150 if quick else 2000):
+    for i in range(100 if quick else 2000):
         n = rng.randint(8, 25 if quick else 40)
         yield mk([rand_op(rng) for _ in range(n)], every=rng.random() < 0.67, salt=rng.randint(0, 5))
 
@@ -170,6 +171,10 @@ def _cases(tier, rng):
 # ---- Gallina ---------------------------------------------------------------------------
 def coq_tag(t):
     kind, v = t
+    if kind == "K" and 0 <= v <= 5:
+        return f"k{v}"
+    if kind == "C" and 0 <= v <= 3:
+        return f"c{v}"
     if kind == "V":
         return "(V " + G.lst([coq_tag(e) for e in v], "tag") + ")"
     return f"({kind} {G.n(v)})"
@@ -178,7 +183,7 @@ def coq_tag(t):
 def coq_op(o):
     n = o[0]
     if n == "add":
-        return f"(OAdd {coq_tag(o[1])} {G.n(o[2])})"
+        return f"(OAdd {coq_tag(o[1])} {'m%d' % o[2] if 0 <= o[2] <= 9 else G.n(o[2])})"
     if n == "remove":
         return f"(ORemove {coq_tag(o[1])})"
     if n == "removeall":
@@ -216,10 +221,27 @@ def coq_sres(s):
     return "SBad"
 
 
-def _wf_tag(t):
-    return (isinstance(t, list) and len(t) == 2 and
-            ((t[0] in ("K", "C") and isinstance(t[1], int) and t[1] >= 0) or
-             (t[0] == "V" and isinstance(t[1], list) and all(_wf_tag(e) for e in t[1]))))
+STD_ALL = [K(0), K(1), K(2), K(3), K(4), K(5), C(0), C(1), C(2), C(3)]
+
+
+def _enc_sres(s):
+    if s == "ok":
+        return 0
+    if s == "err":
+        return 1
+    if isinstance(s, list) and len(s) == 2 and s[0] == "res":
+        r = s[1]
+        if isinstance(r, int) and not isinstance(r, bool) and 0 <= r <= 25:
+            return 6 + r
+        return {"N": 3, "A": 4}.get(r, 5)
+    return 2
+
+
+def _mask(l):
+    m = 0
+    for t in l:
+        m |= 1 << (STD_ALL.index(t) if t in STD_ALL else 10)
+    return m
 
 
 def coq_out(o):
@@ -230,19 +252,23 @@ def coq_out(o):
     try:
         flat = []
         for s, ps in o["steps"]:
-            flat.append(coq_sres(s))
-            flat.extend(f"(SRes {coq_res(r)})" for r in ps)
-        flat.extend(f"(SRes {coq_res(r)})" for r in o["final"])
-        steps = G.lst(flat, "sres")
-        sets = lambda ll: G.lst([G.lst([coq_tag(t) for t in l], "tag") for l in ll], "(list tag)")
-        for ll in (o["par"], o["anc"], [d for d in o["desc"] if d is not None]):
-            for l in ll:
-                if not all(_wf_tag(t) for t in l):
-                    return "(OErr 4%N)"
-        desc = G.lst(["(@None (list tag))" if d is None else "(Some " + G.lst([coq_tag(t) for t in d], "tag") + ")"
-                      for d in o["desc"]], "(option (list tag))")
-        return (f"(OOut {steps} {{| d_isa := {G.lst([G.b(bool(x)) for x in o['isa']], 'bool')}; "
-                f"d_par := {sets(o['par'])}; d_anc := {sets(o['anc'])}; d_desc := {desc} |}})")
+            flat.append(_enc_sres(s))
+            flat.extend(_enc_sres(["res", r]) for r in ps)
+        flat.extend(_enc_sres(["res", r]) for r in o["final"])
+        I = lambda v: f"{v}%uint63"
+        chunk = lambda ds, width, per: G.lst([I(sum(d << (width * i) for i, d in enumerate(ds[k:k + per])))
+                                              for k in range(0, len(ds), per)], "int")
+        steps = chunk(flat, 5, 12)
+        isa = chunk([1 if x else 0 for x in o["isa"]], 1, 60)
+        nt = len(o["par"])
+        if not (len(o["anc"]) == nt and len(o["desc"]) == nt):
+            return "(OErr 4%N)"
+        masks = [_mask(l) for l in o["par"]] + [_mask(l) for l in o["anc"]] + [_mask(d or []) for d in o["desc"]]
+        none = sum(1 << i for i, d in enumerate(o["desc"]) if d is None)
+        if len(flat) > 4000 or len(o["isa"]) > 4000 or nt > 1000:
+            return "(OErr 4%N)"
+        return (f"(unpack {I(len(flat))} {steps} {I(len(o['isa']))} {isa} "
+                f"{I(nt)} {chunk(masks, 11, 5)} {I(none)})")
     except Exception:
         return "(OErr 5%N)"
 
